@@ -87,6 +87,7 @@ func init() {
 			c03OnlyIf(c, f)
 			c03If(c, f)
 			c03Finalizing(c, f)
+			c03Accessor(r)
 			c03Effects(c, f)
 			c03Impl(r)
 		})
@@ -193,6 +194,14 @@ func c03Finalizing(c *core.Ctx, f *core.FSM) {
 		row, _ := f.Lookup(ev, "Finalizing")
 		c.Check(ev == "ResumeResponder" || ev == "Complete", "C03.4", ev+"@Finalizing", c.P.Pos(row.Pos), "release event", "Finalizing → Completing by "+ev+", which is neither a resume/validation release nor Complete")
 	}
+}
+
+// C03.4b: a responder in Finalizing reports itself paused.
+func c03Accessor(r *R) {
+	fn := r.fn("C03.4", "channels", "channelState", "ResponderPaused")
+	r.table("C03.4", fn, 0, []string{"c.ic.ResponderPaused", "Finalizing==c.ic.Status"}, func(a map[string]bool) string {
+		return b2s(a["c.ic.ResponderPaused"] || a["Finalizing==c.ic.Status"])
+	})
 }
 
 // C03.5: effect sets of the actions.
